@@ -11,6 +11,7 @@ import (
 	"os"
 	"strings"
 	"sync"
+	"sync/atomic"
 	"time"
 
 	"mellium.im/xmlstream"
@@ -62,12 +63,37 @@ func isTransmit(k string) bool {
 
 // ---- session over an in-memory pipe ----
 
-type hdrConn struct {
+// watchedConn is the session's end of the pipe: reads may go through a reader
+// that first yields a synthetic stream header, and every Write is announced to
+// the rig before it is passed on (the rig asks the session whether its state
+// mutex is locked at that moment).
+type watchedConn struct {
 	net.Conn
-	r io.Reader
+	r   io.Reader
+	rig *rig
 }
 
-func (h *hdrConn) Read(b []byte) (int, error) { return h.r.Read(b) }
+func (h *watchedConn) Read(b []byte) (int, error) {
+	if h.r != nil {
+		return h.r.Read(b)
+	}
+	return h.Conn.Read(b)
+}
+
+func (h *watchedConn) Write(b []byte) (int, error) {
+	h.rig.onWrite()
+	return h.Conn.Write(b)
+}
+
+type watchedWriter struct {
+	w   io.Writer
+	rig *rig
+}
+
+func (h watchedWriter) Write(b []byte) (int, error) {
+	h.rig.onWrite()
+	return h.w.Write(b)
+}
 
 type plainRW struct {
 	io.Reader
@@ -94,6 +120,49 @@ type rig struct {
 	peerQ   chan []byte
 	peerWG  sync.WaitGroup
 	cancel  context.CancelFunc
+
+	// connection writes of the session
+	watch        atomic.Bool   // ask for the state mutex at every write
+	wmu          sync.Mutex
+	lockedWrites []uint64      // goroutines that entered a connection write while the state mutex was locked
+	writeEntered chan bool     // (stall probes) a write was entered; the value: state mutex locked
+
+	// the peer's reading can be suspended (stall probes)
+	gate   sync.Mutex
+	cond   *sync.Cond
+	paused bool
+}
+
+func (r *rig) onWrite() {
+	if r.s == nil || !r.watch.Load() {
+		return
+	}
+	locked := r.s.VerifStateLocked()
+	if locked {
+		r.wmu.Lock()
+		r.lockedWrites = append(r.lockedWrites, goid())
+		r.wmu.Unlock()
+	}
+	select {
+	case r.writeEntered <- locked:
+	default:
+	}
+}
+
+// pause makes the peer stop reading (a Read in progress is interrupted).
+func (r *rig) pause() {
+	r.gate.Lock()
+	r.paused = true
+	r.gate.Unlock()
+	r.peer.SetReadDeadline(time.Now())
+}
+
+func (r *rig) resume() {
+	r.gate.Lock()
+	r.paused = false
+	r.peer.SetReadDeadline(time.Time{})
+	r.gate.Unlock()
+	r.cond.Broadcast()
 }
 
 const (
@@ -104,24 +173,33 @@ const (
 
 func newRig(dlsup, recv, ws bool) (*rig, error) {
 	a, b := net.Pipe()
-	r := &rig{sess: a, peer: b, capDone: make(chan struct{}), peerQ: make(chan []byte, 64)}
+	r := &rig{sess: a, peer: b, capDone: make(chan struct{}), peerQ: make(chan []byte, 64), writeEntered: make(chan bool, 16)}
+	r.cond = sync.NewCond(&r.gate)
 	hdr := `<stream:stream id="123" version="1.0" xmlns="` + nsClient + `" xmlns:stream="` + stream.NS + `">`
 	rd := io.MultiReader(strings.NewReader(hdr), a)
 	var rw io.ReadWriter
 	if dlsup {
-		rw = &hdrConn{Conn: a, r: rd}
+		rw = &watchedConn{Conn: a, r: rd, rig: r}
 	} else {
-		rw = plainRW{Reader: rd, Writer: a}
+		rw = plainRW{Reader: rd, Writer: watchedWriter{w: a, rig: r}}
 	}
 	go func() {
 		defer close(r.capDone)
 		buf := make([]byte, 4096)
 		for {
+			r.gate.Lock()
+			for r.paused {
+				r.cond.Wait()
+			}
+			r.gate.Unlock()
 			n, err := b.Read(buf)
 			r.mu.Lock()
 			r.out.Write(buf[:n])
 			r.mu.Unlock()
 			if err != nil {
+				if errors.Is(err, os.ErrDeadlineExceeded) {
+					continue // interrupted by pause (or resumed meanwhile)
+				}
 				return
 			}
 		}
@@ -140,9 +218,9 @@ func newRig(dlsup, recv, ws bool) (*rig, error) {
 	if ws {
 		// the real negotiation of the WebSocket subprotocol against a scripted
 		// server that offers no features; what it wrote is cut off at startMark
-		var wrw io.ReadWriter = a
+		var wrw io.ReadWriter = &watchedConn{Conn: a, rig: r}
 		if !dlsup {
-			wrw = plainRW{Reader: a, Writer: a}
+			wrw = plainRW{Reader: a, Writer: watchedWriter{w: a, rig: r}}
 		}
 		r.peerQ <- []byte(`<open xmlns="` + wsNS + `" version="1.0" id="abc" from="example.net"/><stream:features xmlns:stream="` + stream.NS + `"/>`)
 		// the context is only cancelled when the rig is closed: cancelling it as
@@ -186,6 +264,8 @@ func (r *rig) finish() (wire, residual []byte) {
 }
 
 func (r *rig) close() {
+	r.watch.Store(false)
+	r.resume()
 	if r.cancel != nil {
 		r.cancel()
 	}
